@@ -3,6 +3,7 @@ from props import repo_common
 
 
 def run(ctx):
+    design = repo_common.repair_design_runs(ctx)
     out = ctx.go_test("cmd/restic", "^TestVerif_C33$", timeout=3300)
     # the storage invariants hold relative to the damage baseline; the strict post-condition is RepairIndexExact
-    return repo_common.finish_trace(ctx, out, "model_checking")
+    return repo_common.finish_trace(ctx, out, "model_checking", extra_cov={"design_model_runs": design})
